@@ -429,6 +429,8 @@ func c05Lexemes() []c05lex {
 	add(`'abc`, `"abc`, "/* abc", `'ab\n`, "'a\nb'")
 	add(`'a\qb'`, `"a\zb"`, `'x\`)
 	add("?", "#", "!", "@", "~", "é", "日", "é", "\xff", "\xc3", "`", "[", "{", "\\")
+	// control and blank-like characters that are not InfluxQL whitespace
+	add("\x00", "\x01", "\x7f", "\v", "\f", "\u0085", "\u00a0", "\u2028", "\ufeff", "\ufffd", "'a\x00b'", "\"a\x00b\"", "a\x00b", "1\x00", "/* \x00 */", "-- \x00\n")
 	for _, sp := range opSpell {
 		add(sp...)
 	}
